@@ -177,8 +177,9 @@ ConnFail(c) ==
 ConnAbort(c) ==
   /\ bud.aborts > 0 /\ ~net[c].up /\ cs[c].everConn /\ ~cs[c].stopping /\ ~bud.dead[c]
   /\ bud' = [bud EXCEPT !.aborts = @ - 1]
+  /\ cs' = [cs EXCEPT ![c].status.conn = "connecting"]      \* the wrapped endpoint reports the attempt
   /\ lastAct' = Act("ConnAbort", c, "-", "-")
-  /\ UNCHANGED <<cs, srv, net>>
+  /\ UNCHANGED <<srv, net>>
 
 WsCloseFrames(cl) == IF cl.ws THEN <<In("N", "lost", NoArgs), In("M", "lost", NoArgs), In("L", "lost", NoArgs), In("A", "lost", NoArgs)>>
                      ELSE <<>>
@@ -356,6 +357,15 @@ NoInternalError == \A c \in Clients : \A i \in 1..Len(cs[c].errs) : cs[c].errs[i
 ReportErrs == \A c \in Clients : cs[c].errs = <<>> \/ PrintT(<<"ERR", cs[c].errs, lastAct.a>>)
 DocumentedVerdict == \A c \in Clients : DocumentedVerdictEv(Ev(c))
 
+\* supplementary: the status reports agree with what the application has been told, and never go backwards
+StatusOf(c) == <<cs[c].status.conn, cs[c].status.key, cs[c].status.code>>
+\* as compared with the implementation: while the connection is down, whether the last report still says "connected" or already
+\* "connecting" depends on when ClientService's retry timer fires, which the model does not time
+StatusView(c) == <<IF ~net[c].up /\ cs[c].status.conn \in {"connected", "connecting"} THEN "down" ELSE cs[c].status.conn,
+                   cs[c].status.key, cs[c].status.code>>
+StatusConsistent == \A c \in Clients : StatusConsistentEv(StatusOf(c), Ev(c), TRUE)
+StatusMonotone == [][\A c \in Clients : StatusMonotoneSeq(<<StatusOf(c), StatusOf(c)'>>)]_vars
+
 \* C18: at most once each, causal order
 OnceEach == \A c \in Clients : OnceEachEv(Ev(c))
 CausalOrder == \A c \in Clients : CausalOrderEv(Ev(c))
@@ -375,6 +385,8 @@ VerdictRight == \A c \in Clients : (Closed(c) /\ ClosedResult(c) \in Verdicts) =
     /\ (v = "ServerError" => bud.srvErrSeen[c])
     /\ (v = "WelcomeError" => bud.welErrSeen[c])
     /\ ((CleanCfg /\ bud.cause[c] = "app" /\ bud.seenAtCause[c]) => v = "happy")
+\* ... and with nobody forging frames it is one of the verdicts of the statement (an internal error in its place is a wrong verdict)
+VerdictKnown == (MaxInject = 0 /\ MaxTamper = 0) => \A c \in Clients : Closed(c) => ClosedResult(c) \in Verdicts
 ServerFreedAtClose == \A c \in Clients :
     (Closed(c) /\ ClosedResult(c) \in Verdicts \ {"ServerConnectionError"})
        => /\ (cs[c].nameplate # "-" => ~(srv.np[cs[c].nameplate].mb # "-" /\ srv.np[cs[c].nameplate].sides[c] = "claimed"))
